@@ -29,7 +29,11 @@ RULE = (
     "tiers: destination x source id over {0, 1, 0xFF, 0x100, 0xFFFF, 0x10000, 0xFFFFFE, 0xFFFFFF} x sequence {0, 0xFF} x reserved "
     "octets {all 00, all FF, seeded} x pad {00, FF} (768 frames, sync / wake-up payloads all-00 / all-FF too) and the complete "
     "product packet type x frame type x slot type x call type x timeslot (2880 frames: every pair of enum members) with the "
-    "colour code cycling and ids / sequence / reserved / pad from the edge lists.  Distinct = hash of the 72 octets; non-trivial "
+    "colour code cycling and ids / sequence / reserved / pad from the edge lists.  Sub-check 'interleaved': batches of 2..4 "
+    "frames (Hypothesis lists of the single-frame strategy + a permutation; deterministic batches of captured frames and of "
+    "seeded frames whose opaque segments - first header, reserved 3 / 7a / 2a / 2b / 1, pad - are forced to differ: all-00, "
+    "all-FF, seeded, documented defaults rotating) decoded through all four entry points, then observed and re-serialised in "
+    "another order and once more in the original order.  Distinct = hash of the 72 octets; non-trivial "
     "= both ids >= 256 and colour code != 0."
 )
 ASSUMPTIONS = [
@@ -562,9 +566,111 @@ def make_driver(n_quick: int, n_thorough: int):
     return drv
 
 
+# ------------------------------------------------------------------------------------------ interleaved two-phase batches
+
+
+def oracle_interleaved(case):
+    """case = {"frames": [2..4 single-frame cases], "order": permutation of their indices}.  Phase 1 decodes every frame through
+    all four entry points (raw: Burst.from_hytera_ipsc(bytes), HyteraIPSC.from_ipsc_bytes; generic: Burst.from_hytera_ipsc(parsed),
+    HyteraIPSC.from_kaitai) and keeps the objects; phase 2 visits the frames in the other order: every kept object must still
+    show its own frame's values and as_ipsc_bytes() must give its own 72 octets; phase 3 repeats that in the original order.
+    (State shared between decoded objects - a class-level holder, a cache keyed too coarsely - shows only here.)"""
+    from okdmr.dmrlib.etsi.layer2.burst import Burst
+    from okdmr.dmrlib.hytera.hytera_ipsc import HyteraIPSC
+
+    items = []
+    for sub in case["frames"]:
+        frame, exp = _integrity(sub)
+        parsed = _Parsed(frame)
+        objs = [
+            ("raw", call(Burst.from_hytera_ipsc, frame, clause="raw_decoder_no_exception")[1]),
+            ("raw", call(HyteraIPSC.from_ipsc_bytes, frame, clause="raw_decoder_no_exception")[1]),
+            ("generic", parsed.call(Burst.from_hytera_ipsc, "generic_decoder_no_exception")),
+            ("generic", parsed.call(HyteraIPSC.from_kaitai, "generic_decoder_no_exception")),
+        ]
+        items.append((frame, exp, objs))
+    n = len(items)
+    for phase, order in (("after_other_frames_were_decoded", case["order"]), ("second_pass", list(range(n)))):
+        for i in order:
+            frame, exp, objs = items[i]
+            want = {"payload_bits": exp["burst"], "timeslot": exp["ts"], "sequence_no": exp["seq"], "colour_code": exp["cc"],
+                    "frame_source_id": exp["src"], "frame_destination_id": exp["dst"]}
+            for path, o in objs:
+                h = getattr(o, "hytera_ipsc", o)
+                obs = _observe_frame(h)
+                for k, v in want.items():
+                    if obs[k] != v:
+                        raise Fail(f"{path}_path_{phase}_{k}_equals_encoded_value", {"frame_index": i, "got": obs[k]}, v)
+                out = call(h.as_ipsc_bytes, clause=f"{path}_path_as_ipsc_bytes_no_exception")[1]
+                if not isinstance(out, bytes) or out != frame:
+                    others = [j for j in range(n) if j != i and isinstance(out, bytes) and len(out) == 72 and any(out[k] != frame[k] and out[k] == items[j][0][k] for k in range(72))]
+                    raise Fail(f"{path}_path_{phase}_reencode_equal_octets",
+                               {"frame_index": i, "differing_offsets": [k for k in range(min(len(out), 72)) if out[k] != frame[k]], "got": out.hex() if isinstance(out, bytes) else type(out).__name__,
+                                "octets_of_other_frames_in_batch": others}, frame.hex())
+
+
+SEGMENT_MODES = ("00", "ff", "seeded", "default")
+
+
+def _force_segments(rng, h: dict, mode: str) -> dict:
+    for k, ln in RES_LEN.items():
+        h[k] = "00" * ln if mode == "00" else "ff" * ln if mode == "ff" else DEFAULTS[k] if mode == "default" else rng.randbytes(ln).hex()
+    return h
+
+
+def drv_interleaved(ctx: Ctx, sub: SubCheck):
+    from hypothesis import strategies as st
+
+    single = _strategy()
+    batches = st.lists(single, min_size=2, max_size=4).flatmap(lambda fr: st.permutations(list(range(len(fr)))).map(lambda o: {"frames": fr, "order": list(o)}))
+
+    def rec(case, t: Tally):
+        segs = {bytes.fromhex(f["frame"])[0:2] + bytes.fromhex(f["frame"])[5:8] + bytes.fromhex(f["frame"])[9:16] + bytes.fromhex(f["frame"])[24:26] + bytes.fromhex(f["frame"])[60:62] + bytes.fromhex(f["frame"])[71:72] for f in case["frames"]}
+        t.case(sub.name, key=case, nontrivial=len(segs) >= 2, cls=f"batch_of_{len(case['frames'])}")
+        t.cls(sub.name, "opaque_segments_differ_within_batch" if len(segs) >= 2 else "opaque_segments_equal_within_batch")
+        if case["order"] != sorted(case["order"]):
+            t.cls(sub.name, "second_phase_in_another_order")
+
+    def hyp(i, t: Tally):
+        ctx.hypothesis(sub.name, batches, oracle_interleaved, ctx.pick(1600, 64000) // 16, tally=t, shard=i, record=rec)
+
+    ctx.shards(hyp, list(range(16)))
+
+    # deterministic batches: (1) captured frames in windows of 4, (2) seeded frames whose opaque segments are forced to differ
+    # (all-00 / all-FF / seeded / documented defaults rotate through the batch), every slot type, both orders reversed / rotated
+    caps = [case_from_capture(h) for h in CAPTURED_IPSC_FRAMES]
+    slots, calls = sorted(ref.IPSC_SLOT_TYPES), sorted(ref.IPSC_CALL_TYPES)
+    jobs = [("captured", i) for i in range(0, len(caps) - 3, 3)] + [("segments", i) for i in range(ctx.pick(360, 6000))]
+
+    def work(chunk, t: Tally):
+        ci, part = chunk
+        rng = ctx.rng("interleaved", ci)
+        for kind, i in part:
+            if kind == "captured":
+                frames = caps[i : i + 4]
+            else:
+                n = 2 + i % 3
+                frames = []
+                for j in range(n):
+                    sl, cl = slots[(i + 7 * j) % 15], calls[(i // 15 + j) % 4] if (i + j) % 5 == 0 else ["PrivateCall", "GroupCall"][(i + j) % 2]
+                    h = _force_segments(rng, _rand_header(rng, sl, cl, 1 + (i + j) % 2, (i + 5 * j) % 16), SEGMENT_MODES[(i + j) % 4])
+                    h["pad"] = (0, 0xFF, rng.randrange(256))[(i + j) % 3]
+                    kd = payload_kind(sl, cl)
+                    frames.append(make_case(h, kd, _rand_params(rng, kd)))
+            n = len(frames)
+            order = list(reversed(range(n))) if i % 2 == 0 else [(k + 1) % n for k in range(n)]
+            case = {"frames": frames, "order": order}
+            ctx.run_case(sub.name, oracle_interleaved, case, t)
+            t.case(sub.name, nontrivial=True, cls=f"deterministic_batch.{kind}")
+        t.sample(sub.name, case)
+
+    ctx.shards(work, [(c, jobs[c::32]) for c in range(32)])
+
+
 SUBCHECKS = [
     SubCheck("decode", oracle_decode, make_driver(12000, 400000), "raw-bytes and generic-parser decoders: values equal the encoded ones and both paths agree"),
     SubCheck("reencode_raw", oracle_reencode_raw, make_driver(5600, 200000), "as_ipsc_bytes of the frame decoded from raw bytes reproduces the 72 octets"),
     SubCheck("reencode_generic", oracle_reencode_generic, make_driver(5600, 200000), "as_ipsc_bytes of the frame decoded through the generic parser reproduces the 72 octets"),
+    SubCheck("interleaved", oracle_interleaved, drv_interleaved, "batches of 2..4 different frames: decode all through every entry point, then re-serialise / re-observe in another order; each object keeps its own frame"),
 ]
 PREDICATES = {}
